@@ -3,9 +3,9 @@ from lib import core, propgen
 from harness.oracles import all as ALL
 
 ID = 'C02'
-UNITS = ['event_metrics', 'transcription_scores', 'melody_metrics', 'seg_cluster_q', 'hier_gauc', 'chord_cmp', 'weighted_accuracy', 'key_score', 'pattern_scores', 'alignment_scores', 'tempo_detection']
+UNITS = ['event_metrics', 'transcription_scores', 'melody_metrics', 'seg_cluster_q', 'hier_gauc', 'chord_cmp', 'weighted_accuracy', 'key_score', 'pattern_scores', 'alignment_scores', 'tempo_detection', 'beat_q', 'beat_ig']
 TRANSLATORS = []
-NOT_COVERED = 'Partial: beat Cemgil/Goto/P-score/continuity/information gain and the entropic segment scores are covered by the oracle only.'
+NOT_COVERED = 'Partial: the information-gain entropy step and the entropic segment scores are covered by the oracle only.'
 ASSUMPTIONS = ['exact-arithmetic lattices for the correspondence (DESIGN.md section 2.1); NumPy/SciPy primitives as modelled per module']
 
 oracle_search = propgen.budgeted([ALL.for_property(ID)])
@@ -29,6 +29,6 @@ REFUTED = []
 MANIFEST = {
     'text': 'metric(x, x) = best theorems under explicit non-degeneracy predicates: the diagonal is feasible so the verified maximum matching has full size (beat, onset, boundaries, notes), melody measures, pairwise/Rand/ARI (1 or NaN), gauc, chord rules never 0 on a label against itself and weighted accuracy 1, key, pattern, tempo, alignment; four refutations with replayed witnesses (AOR, velocity, melody base frequency, pairwise NaN).',
     'design_ref': 'DESIGN.md section 6, C02',
-    'level_note': 'Trusted: Coq kernel + vm_compute; correspondence harness per modelled metric; NumPy/SciPy primitives as modelled. ' + 'Partial: beat Cemgil/Goto/P-score/continuity/information gain and the entropic segment scores are covered by the oracle only.',
+    'level_note': 'Trusted: Coq kernel + vm_compute; correspondence harness per modelled metric; NumPy/SciPy primitives as modelled. ' + 'Partial: the information-gain entropy step and the entropic segment scores are covered by the oracle only.',
     'technique': 'Coq proof on Gallina models of the task metrics (maximum-matching size lemmas, exact rational arithmetic); model/code correspondence by vm_compute',
 }
